@@ -12,7 +12,9 @@ Inductive case :=
 (* approx_model_count(c, A) in default mode: header `p cnf nv ncl`, largest literal and number of clause lines of the file,
    `c ind` list and clauses named through the IDPool, and the count the exact stand-in counter returned *)
 | CDimacs (C : Circuit) (ords : list (string * list string)) (A : list (string * bool))
-          (obs : res (nat * nat * nat * nat * list var * list clause * nat)).
+          (obs : res (nat * nat * nat * nat * list var * list clause * nat))
+(* a case together with the follow-up cases derived from its observation (adaptive alias probing): all must pass *)
+| CMany (l : list case).
 
 (* ---- specification side: brute-force counting over all consistent valuations ---- *)
 Fixpoint dedupb (l : list (list bool)) : list (list bool) :=
@@ -44,8 +46,9 @@ Fixpoint nodupv (l : list var) : bool := match l with [] => true | x :: r => neg
    2^5 startpoint valuations; beyond that `agree` compares the outcome of construct_solver only (the count itself is then judged by
    `holds`, and its independence of the solver is C08_model_count) *)
 Definition replayable (c : circuit) : bool := (size (startpoints c) <=? 5)%nat.
-Definition agree (k : case) : bool :=
+Fixpoint agree (k : case) : bool :=
   match k with
+  | CMany l => forallb agree l
   | CCount C ords A obs =>
       let ord := mk_ord (c_g C) ords in
       let Am : gmap string bool := list_to_map A in
@@ -96,8 +99,9 @@ Definition agree (k : case) : bool :=
   end.
 
 (* the property, judged on what the implementation returned *)
-Definition holds (k : case) : bool :=
+Fixpoint holds (k : case) : bool :=
   match k with
+  | CMany l => forallb holds l
   | CCount C _ A obs =>
       let c := c_g C in
       if in_domain C then
